@@ -226,10 +226,89 @@ def extract_step2(fnode):
     return out
 
 
+class Phases:
+    __slots__ = ("waits", "yields", "conts")
+
+
+def extract_phases(fnode):
+    """mechanical extraction for a generator made of SEQUENTIAL PHASES (tags "phases", "phase=K").
+    Shape required (anything else: Unsupported): the body is ordinary code in which every `yield` is either
+      (a) the LAST statement `(yield e)` of the body of a `while` loop that contains no other yield, no `continue`
+          and no else (a WAIT LOOP: `while True: x = next(g); if x is not None: ...; break; (yield None)` or
+          `while len(raw) < n: (yield None)`), the loop standing directly in the function body or in `if` branches
+          of it (not inside another loop / try / with), or
+      (b) one final statement `(yield e)` of the function body, followed only by `return`.
+    A resumption after the yield of a wait loop continues at the HEAD of that loop (the yield is the last statement
+    of its body), so the generator's control state is "at the start" (phase 0) or "suspended in wait loop k"
+    (phase k, loops numbered from 1 in source order), and the step function of phase k is: run from the head of
+    loop k (phase 0: from the top) to the next yield, executing each wait loop's test and body at most once
+    (`break` / a false test leaves it, the yield ends the step in that loop's phase).  Locals that are live at a loop
+    head are declared by the contract as step state (extra names in `params`).
+    Dropped: generator protocol (send values, StopIteration), GeneratorExit / close(), the trailing `return`."""
+    waits = []
+    yields = {}
+    conts = {0: list(fnode.body)}
+
+    def is_yield_stmt(st):
+        return isinstance(st, ast.Expr) and isinstance(st.value, ast.Yield)
+
+    def block(stmts, after, top):
+        """after: the statements that follow this block in the enclosing blocks"""
+        for i, st in enumerate(stmts):
+            rest = list(stmts[i + 1:]) + after
+            if isinstance(st, ast.While) and _has_yield(st):
+                if st.orelse or not st.body or not is_yield_stmt(st.body[-1]) or _has_yield(st.test) or \
+                        any(_has_yield(x) for x in st.body[:-1]) or \
+                        (st.body[-1].value.value is not None and _has_yield(st.body[-1].value.value)):
+                    raise Unsupported("generator %s: loop at line %d is not a wait loop (`(yield e)` as the last "
+                                      "statement of its body, no other yield)" % (fnode.name, st.lineno))
+                for n in ast.walk(st):
+                    if isinstance(n, (ast.Continue, ast.Return)):
+                        raise Unsupported("generator %s: continue / return inside the wait loop at line %d"
+                                          % (fnode.name, st.lineno))
+                    if isinstance(n, (ast.For, ast.While)) and n is not st:
+                        raise Unsupported("generator %s: nested loop inside the wait loop at line %d"
+                                          % (fnode.name, st.lineno))
+                waits.append(st)
+                k = len(waits)
+                yields[id(st.body[-1].value)] = ("wait", k)
+                conts[k] = [st] + rest
+            elif isinstance(st, ast.If) and _has_yield(st):
+                if _has_yield(st.test):
+                    raise Unsupported("generator %s: yield inside a condition (line %d)" % (fnode.name, st.lineno))
+                block(st.body, rest, False)
+                block(st.orelse, rest, False)
+            elif is_yield_stmt(st) and top:
+                tail = stmts[i + 1:]
+                if not (len(tail) == 0 or (len(tail) == 1 and isinstance(tail[0], ast.Return) and tail[0].value is None)):
+                    raise Unsupported("generator %s: the final yield (line %d) is not followed by the end / `return`"
+                                      % (fnode.name, st.lineno))
+                if st.value.value is not None and _has_yield(st.value.value):
+                    raise Unsupported("generator %s: nested yield (line %d)" % (fnode.name, st.lineno))
+                yields[id(st.value)] = ("final", 0)
+            elif _has_yield(st):
+                raise Unsupported("generator %s: `yield` at line %d is neither the last statement of a wait loop nor "
+                                  "the final yield of the function" % (fnode.name, st.lineno))
+    for n in ast.walk(fnode):
+        if isinstance(n, ast.YieldFrom):
+            raise Unsupported("generator %s: yield from" % fnode.name)
+    block(list(fnode.body), [], True)
+    if not yields:
+        raise Unsupported("generator %s: no yield" % fnode.name)
+    out = Phases()
+    out.waits, out.yields, out.conts = waits, yields, conts
+    return out
+
+
 def gen_next(E, g):
     """next(g) on a suspended parser generator = ONE application of its step contract; only when the contract
     promises (tag "emits", an obligation of that contract) that every pass emits and loops, and no step state"""
     c = g.contract
+    hs_ = E.reg.external_named("next:" + g.fv.qual)
+    if hs_ is not None and "emits" not in c.tags:
+        # a generator whose passes do not all emit: next() is a LOOP of passes; the contract module supplies the
+        # summary of that loop (an assumed external, derived from the step contract by induction, listed as such)
+        return hs_(E, [g], {})
     if "emits" not in c.tags:
         raise Unsupported("next() on generator %s whose step contract is not tagged 'emits'" % g.fv.qual)
     a = g.fv.node.args
